@@ -13,6 +13,7 @@ from .. import oracles as O
 SHARDS = {'quick': 4, 'thorough': 16, 'quick_timeout': 900, 'thorough_timeout': 3600}
 
 REG = {}      # id(fitter) -> (GridTruth, current literal photometry)
+SHARED_LAW = []
 CUR = {}
 PREV = []
 PREV_DIR = []
@@ -98,7 +99,7 @@ def run(ctx):
                'float32 memmap fitters are compared with a bound of 3e-7*(1+max|log10 F|) dex on model log-fluxes',
                'limits within 1e-9 dex (1e-6 memmap) of the prediction: either outcome accepted',
                'flag-9 slots carry positive finite values here (hostile values in ignored slots are C03)')
-    ctx.require_events('Fitter.fit:post', 'interleave:previous-package')
+    ctx.require_events('Fitter.fit:post', 'interleave:previous-package', 'law-object:table-reassigned')
     ctx.require_regimes('av_interior', 'av_clamped_lo', 'av_clamped_hi', 'lo_eq_hi', 'limit_violated',
                         'limit_satisfied', 'k0_band', 'style:v1', 'style:v2name', 'style:v2wav',
                         'memmap_on', 'memmap_off')
@@ -114,7 +115,20 @@ def run(ctx):
         if np.any(np.isclose(wav, lw[0])) or np.any(np.isclose(wav, lw[-1])):
             ctx.rmdir(d)
             continue
-        law = gen.build_law(lw, lc)
+        if ip % 2 == 1:
+            # one extinction-law object re-used from package to package with its table re-assigned (it has already been
+            # evaluated by the fitters of an earlier package): the new fitters must see the new table
+            if not SHARED_LAW:
+                SHARED_LAW.append(gen.build_law(lw, lc))
+                SHARED_LAW[0].get_av(np.array([0.55, 1.0]) * u.micron)
+            else:
+                SHARED_LAW[0].chi = None          # (a table of another length: the opacities go first)
+                SHARED_LAW[0].wav = np.asarray(lw, float) * u.micron
+                SHARED_LAW[0].chi = np.asarray(lc, float) * u.cm ** 2 / u.g
+                ctx.event('law-object:table-reassigned')
+            law = SHARED_LAW[0]
+        else:
+            law = gen.build_law(lw, lc)
         k = O.ext_pattern(lw, lc, wav)
         if np.ptp(k) < 1e-3:
             ctx.rmdir(d)
